@@ -34,6 +34,85 @@ func runC12F4(c *Ctx) {
 			return false
 		})
 	}
+	inReg := map[*ssa.Function]bool{}
+	for _, f := range reg {
+		inReg[f] = true
+	}
+	isConsult := func(j ssa.Instruction) bool {
+		cc := callCommon(j)
+		return cc != nil && isDecision(cc.StaticCallee())
+	}
+	// a consult, or a return of the constant true (denied), ends the obligation
+	pass := func(j ssa.Instruction) bool {
+		if isConsult(j) {
+			return true
+		}
+		if r, ok := j.(*ssa.Return); ok && len(r.Results) == 1 {
+			if k, isK := constBool(r.Results[0]); isK && k {
+				return true
+			}
+		}
+		return false
+	}
+	// open: after `from`, can the GATE answer without a consult? A helper that is not itself a verdict function (its
+	// result is not a single bool: it hands the parsed address back, `host, ip, err := peerOf(r)`) passes the
+	// obligation on to the code after each of its call sites; there, a branch on a result of the helper that none of
+	// the helper's returns in question can take (`err != nil` when they all return a nil error) is not followed.
+	var open func(from ssa.Instruction, known map[int][]ssa.Value, depth int) (ssa.Instruction, bool)
+	open = func(from ssa.Instruction, known map[int][]ssa.Value, depth int) (ssa.Instruction, bool) {
+		infeasible := func(p, s *ssa.BasicBlock) bool {
+			f, ok := c12EdgeFact(p, s)
+			if !ok || known == nil {
+				return false
+			}
+			x, cons := c12ConsOfFact(f.Cond, f.Truth)
+			idx := -1
+			if ex, isEx := x.(*ssa.Extract); isEx && ex.Tuple == from.(ssa.Value) {
+				idx = ex.Index
+			} else if x == from.(ssa.Value) {
+				idx = 0
+			}
+			vals, have := known[idx]
+			if idx < 0 || !have || len(vals) == 0 {
+				return false
+			}
+			for _, v := range vals {
+				if c12Sat(v, cons) != c12No {
+					return false
+				}
+			}
+			return true
+		}
+		rets := c12ExitsAvoiding(from, pass, infeasible)
+		if len(rets) == 0 {
+			return nil, false
+		}
+		f := from.Parent()
+		res := f.Signature.Results()
+		if f == gate || f.Parent() != nil || depth >= 3 || (res.Len() == 1 && typeStr(res.At(0).Type()) == "bool") {
+			return rets[0], true
+		}
+		kn := map[int][]ssa.Value{}
+		for _, r := range rets {
+			for k, v := range r.Results {
+				kn[k] = append(kn[k], v)
+			}
+		}
+		sites := 0
+		for _, s := range gSites[f] {
+			if _, isVal := s.(ssa.Value); !isVal || s.Parent() == nil || !inReg[s.Parent()] {
+				continue
+			}
+			sites++
+			if r2, o2 := open(s, kn, depth+1); o2 {
+				return r2, true
+			}
+		}
+		if sites == 0 {
+			return rets[0], true
+		}
+		return nil, false
+	}
 	n := 0
 	for _, f := range reg {
 		eachInstr(f, func(i ssa.Instruction) {
@@ -42,29 +121,50 @@ func runC12F4(c *Ctx) {
 				return
 			}
 			n++
-			isConsult := func(j ssa.Instruction) bool {
-				cc := callCommon(j)
-				return cc != nil && isDecision(cc.StaticCallee())
-			}
-			// a return of the constant true (denied) also ends the obligation
-			ret, open := exitReachableAvoiding(call, func(j ssa.Instruction) bool {
-				if isConsult(j) {
-					return true
-				}
-				if r, ok := j.(*ssa.Return); ok && len(r.Results) == 1 {
-					if k, isK := constBool(r.Results[0]); isK && k {
-						return true
-					}
-				}
-				return false
-			})
+			ret, isOpen := open(call, nil, 0)
 			pos := call.Pos()
 			if ret != nil {
 				pos = ret.Pos()
 			}
-			c.check("C12.F4", fnKey(f)+"|peer address: unparsable means denied", pos, !open,
+			c.check("C12.F4", fnKey(f)+"|peer address: unparsable means denied", pos, !isOpen,
 				"after parsing the PEER address (RemoteAddr) the function can return 'not denied' without consulting the access decision: an address net.ParseIP rejects (a zone-scoped IPv6 peer such as fe80::1%eth0) must reach the decision as a nil IP, which denies — skipping unparsable text is only acceptable for the elements of X-Forwarded-For")
 		})
 	}
 	c.atLeast("C12.F4", "ParseIP of the peer address in the HTTP gate", n, 1)
+}
+
+// c12ExitsAvoiding: the returns reachable after instruction `from` without executing an instruction for which pass
+// holds (a helper that does it on all its paths counts) and without taking an edge that is infeasible.
+func c12ExitsAvoiding(from ssa.Instruction, pass func(ssa.Instruction) bool, infeasible func(p, s *ssa.BasicBlock) bool) []*ssa.Return {
+	pass = liftMust(pass, 1)
+	type item struct {
+		b     *ssa.BasicBlock
+		start int
+	}
+	var out []*ssa.Return
+	seen := map[*ssa.BasicBlock]bool{}
+	stack := []item{{from.Block(), instrIndex(from) + 1}}
+	for len(stack) > 0 {
+		it := stack[len(stack)-1]
+		stack = stack[:len(stack)-1]
+		blocked := false
+		for k := it.start; k < len(it.b.Instrs) && !blocked; k++ {
+			in := it.b.Instrs[k]
+			if pass(in) {
+				blocked = true
+			} else if r, ok := in.(*ssa.Return); ok {
+				out = append(out, r)
+			}
+		}
+		if blocked {
+			continue
+		}
+		for _, s := range it.b.Succs {
+			if !seen[s] && !infeasible(it.b, s) {
+				seen[s] = true
+				stack = append(stack, item{s, 0})
+			}
+		}
+	}
+	return out
 }
